@@ -251,6 +251,8 @@ class GraphvizMonitor(Monitor):
 def setup(concepts, spec):
     attach.attach_ctor(concepts)
     attach.attach(concepts.lattices.VisualizableMixin, 'graphviz', GraphvizMonitor(CAP[spec['tier']]))
+    global POOL
+    POOL = common.Pool(5)
 
 
 HOSTILE = ['say "hi"', 'a->b', 'x=y', '[k]', 'semi;colon', 'two words', 'tab\there', 'üñï', 'a,b',
@@ -275,6 +277,7 @@ def cases(tier, seed, spec):
 
 
 def run_case(concepts, case, spec):
+    rng = common.rng_for(case, spec)
     ctx = common.build_or_skip(concepts, case)
     if ctx is None:
         return
@@ -299,5 +302,12 @@ def run_case(concepts, case, spec):
     call(lat.graphviz, make_object_label=Recorder('Q'))
     call(lat.graphviz, make_property_label=Recorder('R'))
     call(lat.graphviz)
+    call(lat.graphviz, 'lattice.gv', spec['workdir'], make_object_label=Recorder('S'), make_property_label=Recorder('T'))
+    old = POOL.older(rng)
+    if old is not None:
+        call(old.graphviz, make_object_label=Recorder('U'), make_property_label=Recorder('V'))
+        call(old.graphviz)
+        COL.count('session_requeries')
+    POOL.add(lat)
     if g is not RAISED:
         COL.sample({'table': case, 'dot_body_head': [l.strip() for l in list(g.body)[:8]]})
